@@ -231,6 +231,16 @@ func e4UnderLock(p *Prog, r *Report, rule string, allow []allowEntry) {
 			var chain []string
 			pos := p.InstrPos(in)
 			if d := directBlocking(in); d != nil {
+				if p.singleUse(fn) && len(p.EntryLocks(fn)) > 0 {
+					// a single-use private helper is judged at its call site, in the caller's
+					// terms; an allow-list entry written for the helper itself stays satisfied
+					for i, a := range allow {
+						if a.Fn == fname && strings.Contains(d.Kind+": "+d.What, a.Match) {
+							used[i] = true
+						}
+					}
+					return
+				}
 				bi = d
 				chain = []string{fname}
 			} else {
@@ -238,6 +248,24 @@ func e4UnderLock(p *Prog, r *Report, rule string, allow []allowEntry) {
 					if bc := e4.may[callee]; bc != nil {
 						bi = bc.Info
 						chain = append([]string{fname}, bc.Chain...)
+						// the blocking operation sits directly in a single-use helper: describe it
+						// as if the helper's body stood here
+						if c := CallOf(in); c != nil && c.StaticCallee() == callee && p.singleUse(callee) {
+							saved := descSubst
+							ns := map[*ssa.Parameter]string{}
+							for i, par := range callee.Params {
+								if i < len(c.Args) {
+									ns[par] = Desc(c.Args[i])
+								}
+							}
+							descSubst = ns
+							EachInstr(callee, func(x ssa.Instruction) {
+								if d := directBlocking(x); d != nil && d.Kind == bc.Info.Kind && p.InstrPos(x) == bc.Pos {
+									bi = d
+								}
+							})
+							descSubst = saved
+						}
 						break
 					}
 				}
